@@ -9,7 +9,7 @@ EXTENDS Schema, RefWriter, ParquetFile, TLC, Json
 CONSTANTS Sizes        \* set of node counts
 VARIABLE st
 LeafTypes == << <<1, 0>>, <<6, 0>>, <<0, 0>>, <<5, 0>>, <<7, 2>>, <<2, 0>>, <<3, 0>>, <<4, 0>> >>
-NameOf(i) == <<110, 48 + (i \div 10), 48 + (i % 10)>>      \* "n00".."n99"
+NameOf(i) == <<110>> \o [j \in 1..(10 - i) |-> 120]      \* "n" followed by 10-i times "x": every later name is a proper prefix of every earlier one (node counts <= 9)
 
 Shapes(n) == {ks \in [1..n -> 0..(n - 1)] : ValidForest([i \in 1..n |-> [rep |-> 0, kids |-> ks[i]]], n - FoldLeft(LAMBDA a, i : a + ks[i], 0, [i \in 1..n |-> i]))
                                               /\ n - FoldLeft(LAMBDA a, i : a + ks[i], 0, [i \in 1..n |-> i]) >= 1}
